@@ -121,9 +121,9 @@ class G:
         m = r.randint(1, 6)
         dmax = r.choice([0, 1, 1, 2, 2, 3, 3, 4, 4, 5])
         monos = []
-        for _ in range(m):
+        for k in range(m):
             e = [0] * n
-            d = r.randint(0, dmax)
+            d = dmax if k == 0 else r.randint(0, dmax)
             for _ in range(d):
                 e[r.randrange(n)] += 1
             c = self.coef()
@@ -294,25 +294,56 @@ def generate(seed, tier):
 
 def coverage_extra(cases, answers):
     """distribution of what was generated / what the implementation did"""
-    st = {"mode": {}, "scheme": {}, "kind": {}, "status": {}, "nan_derivatives": 0, "entry_calls": 0,
-          "entry_calls_with_more_probes_than_nominal_or_fewer": 0, "nvars": {}, "degree_max": {}}
+    st = {"mode": {}, "scheme": {}, "kind": {}, "status": {}, "entry_op": {}, "nvars_function": {}, "nselected": {},
+          "max_degree": {}, "entry_calls": 0, "entry_calls_with_nan_derivative": 0,
+          "entry_calls_with_constrained_list": 0,
+          "selection_with_duplicate": 0, "selection_with_foreign_name": 0, "cross_enabled_calls": 0,
+          "evaluation_points_per_entry_call": {}}
     for c, a in zip(cases, answers):
         if a is None:
             continue
         mode = c[0].split()[-1]
         st["mode"][mode] = st["mode"].get(mode, 0) + 1
         ops = [l for l in c if not l.startswith(("case", "#", "="))]
+        cross = False
         for l, r in zip(ops, a):
             t = l.split()
             if t[0] == "fn":
                 st["kind"][t[1]] = st["kind"].get(t[1], 0) + 1
-                st["nvars"][t[2]] = st["nvars"].get(t[2], 0) + 1
+                st["nvars_function"][t[2]] = st["nvars_function"].get(t[2], 0) + 1
+                n = int(t[2])
+                i = t.index("poly")
+                m = int(t[i + 1])
+                deg = 0
+                for k in range(m):
+                    e = t[i + 2 + k * (n + 1) + 1: i + 2 + (k + 1) * (n + 1)]
+                    deg = max(deg, sum(int(x) for x in e))
+                st["max_degree"][str(deg)] = st["max_degree"].get(str(deg), 0) + 1
             if t[0] == "wrap":
                 st["scheme"][t[1]] = st["scheme"].get(t[1], 0) + 1
+            if t[0] == "vars":
+                vs = t[2:]
+                st["nselected"][t[1]] = st["nselected"].get(t[1], 0) + 1
+                if len(set(vs)) < len(vs):
+                    st["selection_with_duplicate"] += 1
+                if "7" in vs:
+                    st["selection_with_foreign_name"] += 1
+            if t[0] == "enable":
+                cross = t[3] == "1"
             if t[0] in ("set", "setall", "setvals", "match", "f", "setone"):
                 st["entry_calls"] += 1
+                st["entry_op"][t[0]] = st["entry_op"].get(t[0], 0) + 1
                 s = r.split()[0] if r.split() else "?"
                 st["status"][s] = st["status"].get(s, 0) + 1
                 if " nan" in r.split(" E ")[0]:
-                    st["nan_derivatives"] += 1
+                    st["entry_calls_with_nan_derivative"] += 1
+                if " I " in l:
+                    st["entry_calls_with_constrained_list"] += 1
+                if cross:
+                    st["cross_enabled_calls"] += 1
+                rt = r.split()
+                if "L" in rt:
+                    k = rt[rt.index("L") + 1]
+                    b = k if int(k) < 12 else "12+"
+                    st["evaluation_points_per_entry_call"][b] = st["evaluation_points_per_entry_call"].get(b, 0) + 1
     return {"c12_distribution": st}
